@@ -39,11 +39,16 @@ def cache_dir():
     d = os.path.join(CACHE, k)
     if not os.path.isdir(d):
         os.makedirs(CACHE, exist_ok=True)
-        # drop older keys
-        for o in os.listdir(CACHE):
-            if o != k:
-                shutil.rmtree(os.path.join(CACHE, o), ignore_errors=True)
+        # bound the disk use: keep the four most recently used keys (a concurrent run on another tree may still be using its key)
+        others = sorted((o for o in os.listdir(CACHE) if o != k), key=lambda o: os.path.getmtime(os.path.join(CACHE, o)), reverse=True)
+        for o in others[3:]:
+            shutil.rmtree(os.path.join(CACHE, o), ignore_errors=True)
         os.makedirs(d, exist_ok=True)
+    else:
+        try:
+            os.utime(d, None)
+        except OSError:
+            pass
     return d
 
 
